@@ -35,8 +35,11 @@ SYMPTOMS = {"success-although-fault-free-call-fails", "success-reported-without-
             "retry-refused", "retry-not-retrievable", "earlier-binding-replaced", "earlier-binding-lost-and-retry-refused", "earlier-binding-to-another-object-lost", "earlier-binding-lost",
             "previous-metadata-version-lost",
             "bystander-changed"}
-C08_SYMPTOMS = {"leaked-lock", "follow-up-blocked", "deadlock"}
-CODES = {"EIO": errno.EIO, "ENOSPC": errno.ENOSPC, "EACCES": errno.EACCES}
+C08_SYMPTOMS = {"leaked-lock", "follow-up-blocked", "deadlock", "call-does-not-terminate"}
+# VANISH: not an errno handed to the caller but a real condition - the staged temporary file is removed (a temp
+# cleaner) just before it is renamed into place, so the rename fails with a genuine ENOENT that persists. (ENOENT is
+# never injected on a file that exists: code may rightly read it as 'already gone'.)
+CODES = {"EIO": errno.EIO, "ENOSPC": errno.ENOSPC, "EACCES": errno.EACCES, "VANISH": "VANISH"}
 
 
 def fault_shards(tier, seed):
@@ -139,10 +142,15 @@ def run_fault_shard(case_idxs, tier, sub_seed, symptoms=None, owner="C13"):
             for site in sites:
                 for cname, code in CODES.items():
                     for persistent in (False, True):
+                        if code == "VANISH" and (persistent or case.ops[site].kind != "rename"):
+                            continue        # (a vanished file stays vanished; only renames of staged files are sites)
                         r = F.run_fault(case, site, code, persistent)
                         if r["fired"] is None:
-                            res.count("sites_not_reached_on_rerun")
+                            if code != "VANISH":
+                                res.count("sites_not_reached_on_rerun")
                             continue
+                        if code == "VANISH":
+                            res.count("staged_files_vanished_before_publication")
                         res.evaluations += 1
                         res.count("faults_fired")
                         if persistent:
